@@ -20,7 +20,8 @@ for i in range(1, 20):
     tot_fixed.update(commits)
     opens = ", ".join("`%s`" % f["signature"].split(":", 1)[1] for f in kf.get("findings", [])) or "–"
     nopen += len(kf.get("findings", []))
-    states = cov.get("states", 0)
+    # exploration-level evidence has no "states" key of its own: TLC's part is in mc_states / trace_states / judge_states / tlc_inputs
+    states = cov.get("states", 0) or (cov.get("mc_states", 0) + cov.get("trace_states", 0) + cov.get("judge_states", 0) + cov.get("tlc_inputs", 0))
     rows.append("| %s | %s | %s | %s | %s | %s |" % (pid, ev.get("level", ""), "{:,}".format(states).replace(",", " "),
                 "{:,}".format(cov.get("evaluations", 0)).replace(",", " "), opens, ", ".join(commits) or "–"))
 table = ["| id | level | TLC states (quick tier, models + traces) | lopdf executions judged (quick tier) | open findings | repaired (`fix:` commits in /repo) |",
